@@ -10,6 +10,12 @@ Reads the pending-attribute discipline of the g3 data parser:
   * `DataParser::optional_<h>`             : the pending field each of them writes (`istr >> g3->f`)
   * `DataParser::g3_obs_<kind>` (end tags) : `obs->m = optional(g3->f);` / `obs->m = g3->f;` in program order
   * `DataParser::optional(double&)`        : must be read-and-clear
+  * cluster level (round 4): `init(s_g3_obs, t_<tag>, …, &DataParser::g3_obs_<h>)` (which end-tag handler a record tag
+    runs), the observation class that handler `new`s and pushes on `observation_list`, `int dimension() const
+    { return n; }` of every class (g3/g3_observation.h), and the number of `g3->scale.push_back(…)` on every
+    accepting path (`return end_tag(name)`) of the handler — path-sensitive: `if / else` are followed, any other
+    control statement is TieBroken; `DataParser::g3_obs(const char*)` must start its checks with
+    `if (obs_dim != int(g3->scale.size())) return error(…)`
 Every occurrence of `g3-><pending field>` must be one of the forms above, otherwise TieBroken.
 Pure python3 standard library.
 """
@@ -49,6 +55,139 @@ def body_of(src, header_re, what):
         j += 1
         if depth == 0:
             return src[i:j]
+
+
+CLASS_KIND = {"Distance": "dist", "ZenithAngle": "zenith", "Azimuth": "azimuth", "Vector": "vector", "XYZ": "xyz",
+              "HeightDiff": "hdiff", "Height": "height", "Angle": "angle"}
+PUSH = "g3->scale.push_back("
+
+
+def _skip_ws(t, i):
+    while i < len(t) and t[i].isspace():
+        i += 1
+    return i
+
+
+def _match(t, i, op, cl):
+    """index just after the bracket matching t[i] == op"""
+    depth = 0
+    while True:
+        depth += (t[i] == op) - (t[i] == cl)
+        i += 1
+        if depth == 0:
+            return i
+
+
+def _stmt(t, i, what):
+    """one statement starting at t[i] -> (paths, next index); a path is (pushes, end) with end in None/'accept'/'error'"""
+    i = _skip_ws(t, i)
+    if t[i] == "{":
+        j = _match(t, i, "{", "}")
+        return _block(t[i + 1:j - 1], what), j
+    m = re.match(r"if\s*\(", t[i:])
+    if m:
+        j = _match(t, i + m.end() - 1, "(", ")")
+        if PUSH in t[i:j]:
+            broken(f"{what}: scale.push_back inside a condition")
+        then, j = _stmt(t, j, what)
+        k = _skip_ws(t, j)
+        if re.match(r"else\b", t[k:]):
+            els, j = _stmt(t, k + 4, what)
+        else:
+            els = [(0, None)]
+        return then + els, j
+    m = re.match(r"(for|while|do|switch|try|goto|catch)\b", t[i:])
+    if m:
+        broken(f"{what}: control statement `{m.group(1)}` is not understood by the path analysis")
+    j, depth = i, 0
+    while not (t[j] == ";" and depth == 0):
+        depth += (t[j] in "({") - (t[j] in ")}")
+        j += 1
+    text = t[i:j]
+    if re.match(r"return\b", text):
+        if PUSH in text:
+            broken(f"{what}: scale.push_back inside a return")
+        if re.fullmatch(r"return\s+end_tag\(\s*name\s*\)", text.strip()):
+            return [(0, "accept")], j + 1
+        if re.match(r"return\s+error\(", text):
+            return [(0, "error")], j + 1
+        broken(f"{what}: return statement `{text.strip()}` is neither end_tag(name) nor error(…)")
+    return [(text.count(PUSH), None)], j + 1
+
+
+def _block(t, what):
+    paths, i = [(0, None)], 0
+    while _skip_ws(t, i) < len(t):
+        sp, i = _stmt(t, i, what)
+        new = []
+        for c, e in paths:
+            if e is not None:
+                new.append((c, e))
+            else:
+                new += [(c + c2, e2) for c2, e2 in sp]
+        paths = new
+    return paths
+
+
+def accepting_pushes(body, what):
+    paths = _block(body.strip()[1:-1], what)
+    if any(e is None for _, e in paths):
+        broken(f"{what}: a path leaves the handler without return")
+    acc = sorted({c for c, e in paths if e == "accept"})
+    if not acc:
+        broken(f"{what}: no accepting path")
+    return acc
+
+
+def analyse_cluster(repo, src):
+    G = Path(repo) / "lib" / "gnu_gama" / "g3"
+    try:
+        obs_h = strip_comments((G / "g3_observation.h").read_text())
+    except OSError as e:
+        broken(f"cannot read g3_observation.h: {e}")
+    dimension = {}
+    for cls, kind in CLASS_KIND.items():
+        b = body_of(obs_h, r"class\s+" + cls + r"\s*:[^{;]*\{", f"class {cls}")
+        m = re.findall(r"int\s+dimension\(\)\s*const\s*\{\s*return\s+(\d+)\s*;\s*\}", b)
+        if len(m) != 1:
+            broken(f"class {cls}: expected one `int dimension() const {{ return n; }}`")
+        dimension[kind] = int(m[0])
+    init = body_of(src, r"void\s+DataParser::init_g3\(\)\s*\{", "DataParser::init_g3")
+    reg = dict(re.findall(r"init\(\s*s_g3_obs\s*,\s*t_(\w+)\s*,[^;]*?&DataParser::g3_obs_(\w+)\s*\)\s*;", init))
+    reg.pop("covmat", None)
+    if sorted(reg) != sorted(KINDS):
+        broken(f"init_g3: record tags of <obs> are {sorted(reg)}")
+    # every g3_obs_<kind> handler must be registered exactly once, for a record tag of <obs>
+    if len(re.findall(r"&DataParser::g3_obs_(?!cov\b)\w+", init)) != len(KINDS):
+        broken("init_g3: a g3_obs_<kind> handler is registered more than once or outside <obs>")
+    builds, pushes = {}, {}
+    for tag, h in reg.items():
+        if h not in KINDS:
+            broken(f"init_g3: tag {tag} runs the unknown handler g3_obs_{h}")
+        b = body_of(src, r"int\s+DataParser::g3_obs_" + h + r"\(const\s+char\s*\*\s*name\)\s*\{", f"DataParser::g3_obs_{h}")
+        news = re.findall(r"(\w+)\s*\*\s*(\w+)\s*=\s*new\s+(\w+)\s*;", b)
+        if len(news) != 1 or news[0][0] != news[0][2] or news[0][0] not in CLASS_KIND or len(re.findall(r"\bnew\b", b)) != 1:
+            broken(f"g3_obs_{h}: expected exactly one `T* v = new T;` of an observation class")
+        if len(re.findall(r"observation_list\.push_back\(\s*" + news[0][1] + r"\s*\)", b)) != 1 or b.count("observation_list") != 1:
+            broken(f"g3_obs_{h}: the new observation is not pushed exactly once on observation_list")
+        builds[tag] = CLASS_KIND[news[0][0]]
+        pushes[tag] = accepting_pushes(b, f"g3_obs_{h}")
+    # the cluster check
+    g = body_of(src, r"int\s+DataParser::g3_obs\(const\s+char\s*\*\s*name\)\s*\{", "DataParser::g3_obs(const char*)")
+    if not re.search(r"obs_dim\s*\+=\s*\(\*i\)->dimension\(\)\s*;", g):
+        broken("g3_obs: obs_dim is no longer the sum of dimension() over observation_list")
+    first_if = re.search(r"\bif\s*\(", g[g.index("obs_dim +="):])
+    chk = re.search(r"if\s*\(\s*obs_dim\s*!=\s*int\(\s*g3->scale\.size\(\)\s*\)\s*\)\s*return\s+error\(", g[g.index("obs_dim +="):])
+    if not chk or chk.start() != first_if.start():
+        broken("g3_obs: the first check after summing obs_dim is no longer `if (obs_dim != int(g3->scale.size())) return error(…)`")
+    g0 = body_of(src, r"int\s+DataParser::g3_obs\(const\s+char\s*\*\s*name\s*,\s*const\s+char\s*\*\*\s*atts\)\s*\{", "DataParser::g3_obs(start)")
+    if "g3->scale.clear()" not in g0:
+        broken("g3_obs(start tag): g3->scale.clear() is gone")
+    n_push = src.count(PUSH)
+    n_seen = sum(body_of(src, r"int\s+DataParser::g3_obs_" + h + r"\(const\s+char\s*\*\s*name\)\s*\{", h).count(PUSH) for h in set(reg.values()))
+    if n_push != n_seen:
+        broken(f"dataparser_g3.cpp: {n_push} scale.push_back, {n_seen} of them in the record handlers")
+    return builds, dimension, pushes
 
 
 def analyse(repo):
@@ -114,15 +253,16 @@ def analyse(repo):
     total = len([f for f in re.findall(r"g3->(\w+)", src) if f in FIELD])
     if total != accounted:
         broken(f"dataparser_g3.cpp: {total} uses of pending dh fields, {accounted} understood")
-    return init_cleared, settable, consumes
+    return init_cleared, settable, consumes, analyse_cluster(repo, src)
 
 
 def translate_text(repo):
-    init_cleared, settable, consumes = analyse(repo)
+    init_cleared, settable, consumes, (builds, dimension, pushes) = analyse(repo)
     kn = lambda k: "." + k
     out = ["""/-
   GENERATED by tools/gen/c19_g3parser.py — do not edit.
-  Source: lib/gnu_gama/xml/dataparser_g3.cpp (`init_g3`, `optional_*`, `g3_obs_*`), dataparser.h (`optional`)
+  Source: lib/gnu_gama/xml/dataparser_g3.cpp (`init_g3`, `optional_*`, `g3_obs_*`, `g3_obs`), dataparser.h (`optional`),
+          lib/gnu_gama/g3/g3_observation.h (`dimension()`)
 -/
 import Gama.Model.G3Parser
 namespace Gama.Gen.G3ParserSites
@@ -140,6 +280,18 @@ def consumes : Kind → List (Field × Field × Bool)
 """ + "".join(f"  | {kn(k)} => [" + ", ".join(f"({FIELD[m]}, {FIELD[f]}, {'true' if o else 'false'})" for m, f, o in consumes[k]) + "]\n"
               for k in KINDS) + """
 def sites : Sites := ⟨initCleared, settable, consumes⟩
+
+/-- `init(s_g3_obs, t_<tag>, …, &DataParser::g3_obs_<h>)` + `T* v = new T;` in `g3_obs_<h>` : the observation class
+    a record tag builds -/
+def builds : Kind → Kind
+""" + "".join(f"  | {kn(k)} => {kn(builds[k])}\n" for k in KINDS) + """
+/-- `int dimension() const { return n; }` of the observation classes (g3/g3_observation.h) -/
+def dimension : Kind → Nat
+""" + "".join(f"  | {kn(k)} => {dimension[k]}\n" for k in KINDS) + """
+/-- numbers of `g3->scale.push_back(…)` on the accepting paths of the end-tag handler of a record tag -/
+def scalePushes : Kind → List Nat
+""" + "".join(f"  | {kn(k)} => [" + ", ".join(str(c) for c in pushes[k]) + "]\n" for k in KINDS) + """
+def obsSites : ObsSites := ⟨builds, dimension, scalePushes⟩
 
 end Gama.Gen.G3ParserSites
 """]
